@@ -16,10 +16,10 @@ EXTENDS Scenarios
 
 TargetKinds == {"local", "aux1", "aux2", "aux3", "trans", "selfrec", "mutual", "arrayself", "mapself",
                 "auxarrayself", "anonprop", "anonitems", "anonallof", "sharedparam", "sharedresp", "diamond"}
-Shapes      == {"prim", "object", "arrayref", "tuple", "allof", "map", "nested", "ptrarray"}
+Shapes      == {"prim", "object", "arrayref", "tuple", "allof", "map", "nested", "ptrarray", "ref"}
 HolderKinds == {"prop", "items", "tuple", "addprops", "additems", "allof", "alias", "opbody", "pathbody",
                 "code", "default", "sharedparam", "sharedresp", "nested", "opnested", "opitems",
-                "auxresp", "auxparam", "auxpathitem"}
+                "auxresp", "auxparam", "auxpathitem", "unusedparam", "unusedresp"}
 AuxHolders  == {"auxresp", "auxparam", "auxpathitem"}
 SecondKinds == {"none", "code", "prop2", "same"}
 Collisions  == {"none", "exact", "case", "twoimports"}
@@ -40,6 +40,7 @@ Body(s, helper) ==
     [] s = "tuple"    -> Mk([type |-> "array"], [items |-> ListOf(<<Int, helper>>)])
     [] s = "allof"    -> Mk(<<>>, [allOf |-> ListOf(<<helper, ObjP([N_6 |-> Str])>>)])
     [] s = "map"      -> Obj([additionalProperties |-> ObjP([N_6 |-> Int])])
+    [] s = "ref"      -> helper      \* the target is itself nothing but a $ref to a top-level definition
     [] s = "nested"   -> ObjP([N_6 |-> ObjP([N_13 |-> Str]), N_14 |-> Mk([type |-> "array"], [items |-> ObjP([N_15 |-> helper])])])
     \* an array whose items are a further anonymous pointer, to the sibling property N_4 (only with target kind anonprop)
     [] s = "ptrarray" -> Mk([type |-> "array"], [items |-> RefTo(<<"root", "definitions", "N_1", "properties", "N_4">>)])
@@ -129,6 +130,11 @@ Holder(h, REF) ==
     [] h = "opnested" -> inOp(PathItemWith([patch |-> Op([responses |-> Mk(<<>>, ("201" :> Resp([schema |-> ObjP([N_9 |-> REF, N_10 |-> Str])])))])]))
     [] h = "opitems"  -> inOp(PathItemWith([head |-> Op([responses |-> Mk(<<>>, ("200" :> Resp([schema |-> Mk([type |-> "array"], [items |-> REF])])))])]))
     [] h \in AuxHolders -> [defs |-> <<>>, params |-> <<>>, resps |-> <<>>, path |-> AuxHolderRoot(h)]
+    \* shared objects that no operation uses (they disappear with RemoveUnused, and so must what only they refer to)
+    [] h = "unusedparam" -> [defs |-> <<>>, params |-> [N_12 |-> BodyParam(REF)], resps |-> <<>>,
+                             path |-> PathItemWith([get |-> Op([responses |-> OkResponses])])]
+    [] h = "unusedresp"  -> [defs |-> <<>>, params |-> <<>>, resps |-> [N_12 |-> Resp([schema |-> REF])],
+                             path |-> PathItemWith([get |-> Op([responses |-> OkResponses])])]
     [] h = "sharedparam" -> [defs |-> <<>>, params |-> [N_12 |-> BodyParam(REF)], resps |-> <<>>,
                              path |-> PathItemWith([post |-> Op([parameters |-> ListOf(<<RefTo(<<"root", "parameters", "N_12">>)>>), responses |-> OkResponses])])]
     [] h = "sharedresp"  -> [defs |-> <<>>, params |-> <<>>, resps |-> [N_12 |-> Resp([schema |-> REF])],
